@@ -39,8 +39,8 @@ def strategy(tier):
             {
                 "n_best": st.integers(1, 5),
                 "thresh_corr": st.sampled_from([1, 0.9, 0.7, 0.5, 0.3]),
-                "quant_measure": st.sampled_from(["default", "default", "R"]),
-                "qual_measure": st.sampled_from(["default", "cramerv"]),
+                "quant_measure": st.sampled_from(["default", "default", "R", "kruskal+R"]),
+                "qual_measure": st.sampled_from(["default", "cramerv", "chi2+cramerv", "chi2+tschuprowt"]),
                 "quant_filter": st.sampled_from(["spearman", "spearman", "pearson"]),
                 "qual_filter": st.sampled_from(["tschuprowt", "cramerv"]),
             }
@@ -57,8 +57,18 @@ def make_selector(case, quant, qual):
     if not regression:
         if cfg["quant_measure"] == "R":
             kwargs["quantitative_measures"] = [S.R_measure]
+        elif cfg["quant_measure"] == "kruskal+R":
+            # two measures: the second is only evaluated when the first stays below its threshold
+            kwargs["quantitative_measures"] = [S.kruskal_measure, S.R_measure]
+            kwargs["thresh_kruskal"] = 1e12
         if cfg["qual_measure"] == "cramerv":
             kwargs["qualitative_measures"] = [S.cramerv_measure]
+        elif cfg["qual_measure"] == "chi2+cramerv":
+            kwargs["qualitative_measures"] = [S.chi2_measure, S.cramerv_measure]
+            kwargs["thresh_chi2"] = 1e12
+        elif cfg["qual_measure"] == "chi2+tschuprowt":
+            kwargs["qualitative_measures"] = [S.chi2_measure, S.tschuprowt_measure]
+            kwargs["thresh_chi2"] = 1e12
     kwargs["quantitative_filters"] = [S.spearman_filter if cfg["quant_filter"] == "spearman" else S.pearson_filter]
     kwargs["qualitative_filters"] = [S.tschuprowt_filter if cfg["qual_filter"] == "tschuprowt" else S.cramerv_filter]
     klass = S.RegressionSelector if regression else S.ClassificationSelector
@@ -70,6 +80,7 @@ def reference_measures(case, X, y, quant, qual):
     cfg = case["config"]
     regression = case["target"]["kind"] == "continuous"
     m = {}
+    second = {}
     for f in quant:
         if not prefilter_ok(X[f]):
             m[f] = float("nan")
@@ -77,6 +88,10 @@ def reference_measures(case, X, y, quant, qual):
             m[f] = one_minus_r(X[f], y)
         elif cfg["quant_measure"] == "R":
             m[f] = eta(X[f], y)
+        elif cfg["quant_measure"] == "kruskal+R":
+            k, r = kruskal_by(X[f], y), eta(X[f], y)
+            m[f] = float("nan") if (math.isnan(k) or math.isnan(r)) else r  # primary ranking measure: the last one
+            second[f] = k
         else:
             m[f] = kruskal_by(X[f], y)
     for f in qual:
@@ -87,7 +102,9 @@ def reference_measures(case, X, y, quant, qual):
             m[f] = kruskal_by(y[ok], X[f][ok])
         else:
             v, t = cramer_tschuprow(X[f], y)
-            m[f] = v if cfg["qual_measure"] == "cramerv" else t
+            m[f] = v if "cramerv" in cfg["qual_measure"] else t
+    if second:
+        m["__second__"] = second
     return m
 
 
@@ -128,7 +145,11 @@ def check_selection(out, case, X, y, quant, qual, returned, n_best, tag=""):
             corr_cache[key] = v1 if cfg["qual_filter"] == "cramerv" else t1
         return corr_cache[key]
 
-    validity(ret_quant, quant, measure, assoc_quant, n_best, cfg["thresh_corr"], out, f"{tag}quantitative")
+    second = measure.pop("__second__", None)
+    if second is None or regression:
+        validity(ret_quant, quant, measure, assoc_quant, n_best, cfg["thresh_corr"], out, f"{tag}quantitative")
+    else:
+        two_measure_reference(ret_quant, quant, measure, second, assoc_quant, n_best, cfg["thresh_corr"], out, f"{tag}quantitative")
     validity(ret_qual, qual, measure, assoc_qual, n_best, cfg["thresh_corr"], out, f"{tag}qualitative")
     # classes for the evidence
     for feats, ret, assoc in ((quant, ret_quant, assoc_quant), (qual, ret_qual, assoc_qual)):
@@ -140,6 +161,46 @@ def check_selection(out, case, X, y, quant, qual, returned, n_best, tag=""):
                 out.label("omitted-for-correlation")
                 break
     return measure
+
+
+def greedy(features, m, assoc, thresh, n_best):
+    """Reference greedy filter on one measure. Returns (selection, ambiguous)."""
+    defined = [f for f in features if not math.isnan(m[f])]
+    order = sorted(defined, key=lambda f: -m[f])
+    ambiguous = any(abs(m[a] - m[b]) <= 1e-9 * max(1.0, abs(m[a])) for a, b in zip(order, order[1:]))
+    kept = []
+    for f in order:
+        worst = 0.0
+        for g in kept:
+            c = assoc(f, g)
+            if not math.isnan(c):
+                worst = max(worst, c)
+        if abs(worst - thresh) <= 1e-9:
+            ambiguous = True
+        if worst > thresh:
+            continue
+        kept.append(f)
+    return kept[:n_best], ambiguous
+
+
+def two_measure_reference(returned, features, primary, second, assoc, n_best, thresh, out, tag):
+    """[kruskal_measure, R_measure]: n_best per measure after the greedy filter on each ranking, union reported
+    in the order of the initial ranking (last measure first)."""
+    feats = [f for f in features if not math.isnan(primary[f])]
+    sel_r, amb_r = greedy(feats, primary, assoc, thresh, n_best)
+    sel_k, amb_k = greedy(feats, {f: second[f] for f in feats}, assoc, thresh, n_best)
+    out.label("two-measures")
+    if amb_r or amb_k:
+        out.label("two-measures-ambiguous")
+        if len(set(returned)) != len(returned) or any(f not in features for f in returned) or len(returned) > 2 * n_best:
+            out.violate(f"{tag}:two-measures:malformed-result", f"{returned}")
+        return
+    union = set(sel_r) | set(sel_k)
+    expected = sorted(union, key=lambda f: (-primary[f], -second[f]))
+    if set(returned) != union:
+        out.violate(f"{tag}:two-measures:selection-differs-from-reference", f"returned {returned}; reference: best by R {sel_r}, best by kruskal {sel_k} (n_best={n_best} per measure, thresh_corr={thresh})")
+    elif list(returned) != expected:
+        out.violate(f"{tag}:two-measures:order-differs-from-reference", f"returned {returned}, expected {expected}")
 
 
 def check_case(case) -> Outcome:
